@@ -191,7 +191,9 @@ func buildLineages(s *node.Settings, A, B *node.Wallet, length int) (P, M, N []*
 	var outs []node.RawOutput
 	var wallets []*node.Wallet
 	for j := 0; j < splitCount; j++ {
-		wj := node.NewWallet(100 + j)
+		// 40 wallets own 10 split outputs each: an address then holds a LIST of outputs that spends shrink from the
+		// middle while outputs queries read it
+		wj := node.NewWallet(100 + j%40)
 		wallets = append(wallets, wj)
 		outs = append(outs, node.RawOutput{Address: wj.Address, IsYielding: false, Value: 20_000})
 	}
